@@ -196,6 +196,35 @@ def body_environ_path(I, X, n=2, which="PATH_INFO"):
     return peq(got, want), {"got": got}
 
 
+def body_environ_url(I, X, n=2, which="PATH_INFO", mode="any", lead=None):
+    """URL reconstruction from a WSGI environ: wsgi.get_current_url(environ) is the URL the
+    request object reports (Request.url / root_url) for the same environ, for every path /
+    script root a server can hand over (UTF-8 bytes tunnelled through latin-1); for well-formed
+    UTF-8 without reserved characters it is literally scheme://host + the decoded text"""
+    from werkzeug import wsgi
+    from werkzeug.wrappers import Request
+
+    t = X.str("tail", n, minlen=n, maxcp=0xFF)
+    X.assume(pall_in(t, [(0x01, 0xFF)]))
+    if lead is not None:
+        X.assume(pall_in(t[0:1], [lead]))
+    raw = pconcat("/p", t)
+    environ = {"REQUEST_METHOD": "GET", "wsgi.url_scheme": "http", "SERVER_NAME": "s", "SERVER_PORT": "80", "SCRIPT_NAME": "", "PATH_INFO": "/x",
+               "QUERY_STRING": ""}
+    environ[which] = raw
+    root_only = which == "SCRIPT_NAME" and mode == "root"
+    got = I.call(wsgi.get_current_url, (environ,), {"root_only": root_only})
+    req = I.call(Request, (dict(environ),))
+    ref = I.getattr(req, "root_url" if root_only else "url")
+    ok = peq(got, ref)
+    if n == 2 and bool(pand(pall_in(t[0:1], [(0xC3, 0xDF)]), pall_in(t[1:2], [(0x80, 0xBF)]))):
+        # one well-formed two-byte character (U+00C0..U+07FF: letters, no reserved characters)
+        ch = t.encode("latin-1").decode("utf-8", "replace")
+        want = pconcat("http://s/p", ch, "/x") if which == "SCRIPT_NAME" and not root_only else pconcat("http://s/p", ch, "/" if root_only else "")
+        ok = pand(ok, peq(got, want))
+    return ok, {"got": got, "request": ref}
+
+
 def body_query_mapping(I, X, nk=1, nv=1):
     """a query mapping given to the environ builder is recovered exactly: urls._urlencode (what
     EnvironBuilder uses for a query mapping) followed by Request.args"""
@@ -235,6 +264,14 @@ def obligations(tier, seed):
         for n in ((1, 2) if quick else (1, 2, 3)):
             out.append({"name": f"environ_path[{which},n={n}]", "body": "body_environ_path", "params": {"n": n, "which": which},
                         "opts": {"budget_s": 900, "ctx": {"max_cp": 0xFFFF}}})
+    for which, mode in (("PATH_INFO", "any"), ("SCRIPT_NAME", "any"), ("SCRIPT_NAME", "root")):
+        for n in ((1,) if quick else (1, 2)):
+            out.append({"name": f"environ_url[{which},{mode},n={n}]", "body": "body_environ_url", "params": {"n": n, "which": which, "mode": mode},
+                        "opts": {"budget_s": 900 if quick else 3000, "ctx": {"max_cp": 0xFFFF}}})
+    if quick:
+        # one well-formed two-byte character (the absolute oracle): first byte fixed, second solver-chosen
+        out.append({"name": "environ_url[PATH_INFO,any,n=2,lead=C3]", "body": "body_environ_url", "params": {"n": 2, "which": "PATH_INFO", "mode": "any", "lead": 0xC3},
+                    "opts": {"budget_s": 900, "ctx": {"max_cp": 0xFFFF}}})
     for nk, nv in ([(1, 1), (2, 0)] if quick else [(1, 1), (2, 0), (2, 1), (1, 2)]):
         out.append({"name": f"query_mapping[k={nk},v={nv}]", "body": "body_query_mapping", "params": {"nk": nk, "nv": nv},
                     "opts": {"budget_s": 900, "ctx": {"max_cp": 0x7FF}, "stubs_from": "harness.c02"}})
